@@ -27,7 +27,7 @@ RULE = ('directed corpus (docstring examples, boundaries) + seeded blocks; every
         'on-high, above, degenerate}; no operator x {equal, substring, superstring, other}; x separators of spaces '
         'and tabs. Inputs outside the documented grammar are run as DONT-CARE and only recorded. '
         'non-trivial = every case; distinct by (value, spec)')
-REQUIRED_CLAUSES = ['numeric-value-as-number-object', 'concurrent-calls-answer-as-alone', 'documented-keyword-call', 'extra-whitespace-around-spec', 'numeric-op', 'string-op', 'in', 'all-in', 'or', 'range-in', 'no-operator',
+REQUIRED_CLAUSES = ['equal-valued-arguments-in-any-order', 'valid-calls-after-rejected-calls-answer-as-before', 'under-pyparsing-inline-literals-suppressed', 'numeric-value-as-number-object', 'concurrent-calls-answer-as-alone', 'documented-keyword-call', 'extra-whitespace-around-spec', 'numeric-op', 'string-op', 'in', 'all-in', 'or', 'range-in', 'no-operator',
                     'dont-care-recorded']
 ASSUMPTIONS = ['numeric oracle: exact rational comparison (fractions.Fraction built from the generated digit strings); '
                'asserted only for numerals with at most 15 significant digits, where float() is order- and '
